@@ -510,6 +510,16 @@ fn process_tags(
                         idx_output.insert(idx, events);
                     }
                 } else {
+                    if let Err(
+                        err @ (SvgdxError::LoopLimitError(..)
+                        | SvgdxError::VarLimitError(..)
+                        | SvgdxError::DepthLimitExceeded(..)),
+                    ) = gen_result
+                    {
+                        // Limits are safety stops, not missing context: retrying would
+                        // resume from the state the failed attempt left behind.
+                        return Err(err);
+                    }
                     if let (Some(el), Err(err)) = (el, gen_result) {
                         if let SvgdxError::MultiError(err_list) = err {
                             for (idx, (el, err)) in err_list {
